@@ -88,18 +88,39 @@ def xprOf (S : α) (xT : Tree α) : List (TFr α) → α
   | .L _ _ _ r :: _ => mxOf S r
   | .R _ _ _ _ :: _ => mxOf S xT
 
+/-- loop L1 and the recomputation F1: `x`'s subtree and the ancestors of `y` afterwards -/
+def l1f1T (eqf : α → α → Bool) (S : α) (xT : Tree α) (yn : Node α) (frames : List (TFr α)) : Tree α × List (TFr α) :=
+  match scanT (l1Step eqf S (minv yn)) (mxOf S xT) frames with
+  | [] => (refresh S xT, [])
+  | f :: rest => (xT, f.setMx (f.recompF S (mxOf S xT)) :: rest)
+
 /-- **`_delete_from_tree` after the splice, up to the colour fix-up**: `xT` = the subtree of `x` (the only child of
     the spliced-out node `y`), `yn` = `y`'s content, `frames` = the ancestors of `y` (innermost first),
     `jz = some j` when `z ≠ y` sits `j` frames up.  Returns `x`'s subtree and the ancestors afterwards. -/
 def delPassT (eqf : α → α → Bool) (S : α) (xT : Tree α) (yn : Node α) (frames : List (TFr α)) (jz : Option Nat) :
     Tree α × List (TFr α) :=
-  match scanT (l1Step eqf S (minv yn)) (mxOf S xT) frames with
-  | [] => (refresh S xT, [])
-  | f :: rest =>
-    let fr2 := f.setMx (f.recompF S (mxOf S xT)) :: rest
-    match jz with
-    | none => (xT, fr2)
-    | some j => (xT, cl2T eqf S yn (xprOf S xT fr2) j (mxOf S xT) fr2)
+  match jz with
+  | none => l1f1T eqf S xT yn frames
+  | some j =>
+    ((l1f1T eqf S xT yn frames).1,
+      cl2T eqf S yn (xprOf S xT (l1f1T eqf S xT yn frames).2) j (mxOf S xT) (l1f1T eqf S xT yn frames).2)
+
+/-- the current maximum of the child below the frame that follows `below` -/
+def lastMx : α → List (TFr α) → α
+  | cm, [] => cm
+  | _, fr :: rest => lastMx fr.mx rest
+
+theorem cl2T_append (eqf : α → α → Bool) (S : α) (yn : Node α) (xpr : α) : ∀ (below : List (TFr α)) (cm : α)
+    (zf : TFr α) (above : List (TFr α)),
+    cl2T eqf S yn xpr below.length cm (below ++ zf :: above) =
+      below ++ ((zf.setNd yn).setMx ((zf.setNd yn).recompF S (lastMx cm below))) ::
+        scanT (l2Step eqf S (minv zf.nd) xpr) ((zf.setNd yn).recompF S (lastMx cm below)) above := by
+  intro below
+  induction below with
+  | nil => intro cm zf above; rfl
+  | cons fr rest ih =>
+    intro cm zf above
+    simp only [List.length_cons, List.cons_append, cl2T, lastMx, ih]
 
 theorem scanT_length (step : α → TFr α → Option α) : ∀ (frs : List (TFr α)) (cm : α),
     (scanT step cm frs).length = frs.length := by
